@@ -78,6 +78,20 @@ def partsInside (outer inner : Loc) : Bool :=
 def coversSlice (l r : Loc) (a b : Nat) : Bool :=
   bases r == sliceL (bases l) a b && decide ((bases r).length = b - a) && partsInside l r
 
+/-! ### the standard exon orders (hypotheses of the `convert_*_partial` theorems) -/
+
+/-- exons listed upwards without overlap -/
+def ascDisjointB : List Part → Bool
+  | [] => true
+  | [_] => true
+  | p :: q :: r => decide (p.hi ≤ q.lo) && ascDisjointB (q :: r)
+
+/-- exons listed downwards without overlap -/
+def descDisjointB : List Part → Bool
+  | [] => true
+  | [_] => true
+  | p :: q :: r => decide (q.hi ≤ p.lo) && descDisjointB (q :: r)
+
 /-! ### rebuilding a location from consecutive sections (prepeptide write-out / re-read) -/
 
 /-- one step of the loop of `build_location_from_others` (same expression as in Model/LocOps.lean) -/
